@@ -98,4 +98,16 @@ PROPS["C07"] = {
     "assumptions": ["bincode's derive order and primitive encodings are as modelled (the model's bytes are compared with the real ones)"],
 }
 
+PROPS["C13"] = {
+    "families": [],
+    "nontrivial": lambda line, out: True,
+    "rule": "the C13 case file (300 quick / 3000 thorough random well-formed models, half with tag models, all window classes, x 4 texts) "
+            "is run through one binary per cargo-feature subset of {std, cache-type-score, fix-weight-length, tag-prediction, "
+            "charwise-pma} (quick: default, none, default minus each = 7 builds; thorough: all 32, + portable-simd on nightly if it "
+            "builds); every output is compared with the Lean model under the matching Cfg and with the default build",
+    "scopes": {"quick": "7 feature builds", "thorough": "32 feature builds (+ portable-simd)"},
+    "extras": [extras.feature_matrix],
+    "assumptions": ["charwise-pma, std and portable-simd are identified in the model (same function); they are covered by the feature-matrix run only"],
+}
+
 SETUP_EXTRA = []
